@@ -82,6 +82,11 @@ def run(ctx):
     from ..rules import optnorm as _on2
     for _f, _n, _ok, _why in _on2.scan_attributes(prog):
         ctx.ob("R-NORM", "C02.1", _f, "an option that is accepted case-insensitively and compared as stored is stored in its normalised spelling", _ok, _why, node=_n)
+    # ... and inside one function the same option is not compared both normalised and raw (function-level R-NORM; a shared
+    # shrinkage helper is inlined into its callers by the program model, so a raw comparison in the helper is seen here)
+    for _f, _n, _ok, _why in _on2.scan(prog):
+        if _f.module.name in ("nessai.evidence", "nessai.posterior"):
+            ctx.ob("R-NORM", "C02.1", _f, "an option that is looked up case-insensitively is compared with its literal values under the same normalisation", _ok, _why, node=_n)
     ctx.floor("C02.1", 8)
 
     # ---- C02.2 final live-point schedule -----------------------------------
